@@ -314,8 +314,9 @@ pub fn check<S: Src>(s: &mut S) {
     # 10. operators derived from a user impl, operand types called like the expansion's idents
     add("item-impl|Rhs+Output", "operators derived from a user impl on types called Rhs / Output",
         """
-#[derive(Clone)]
 pub struct Rhs(pub u8);
+impl ::core::clone::Clone for Rhs { fn clone(&self) -> Rhs { Rhs(self.0) } }
+impl Rhs { pub fn clone(&self) -> Rhs { Rhs(0xEE) } }  // inherent method called like the trait method
 #[derive_ex(Sub, SubAssign)]
 impl ::core::ops::Sub<&Rhs> for &Rhs {
     type Output = Rhs;
